@@ -28,3 +28,71 @@ def fact_expand_settings(model, rep, R):
                       "over-long passwords are truncated although the policy forbids it")
     g = model.fold(model.unit(CTX), ast.Name(id="_global_settings", ctx=ast.Load()))
     rep.check(isinstance(g, set) and "truncate_error" in g, R, f"{CTX}:_global_settings", repr(g), "truncate_error is a context-wide setting")
+
+
+# ----------------------------------------------------------------------------------------------------------------
+NUMERIC_OPTION_NAMES = {
+    "rounds", "min_rounds", "max_rounds", "default_rounds", "min_desired_rounds", "max_desired_rounds", "vary_rounds", "salt_size",
+    "default_salt_size", "parallelism", "block_size", "variant", "version", "last_counter", "window", "skew", "digits", "period",
+    "size", "counter", "memory_cost", "time_cost", "max_threads", "digest_size", "checksum_size", "hash_len", "salt_len", "time", "cost",
+    "entropy", "length", "truncate_error", "relaxed_rounds",
+}
+#: (unit, qualname, parameter) -> reason: truthiness tests on None-default numeric parameters that were read and are harmless
+FALSY_ZERO_TRIAGED = {
+    ("passlib.utils.handlers", "HasRounds.using", "vary_rounds"): "only decides whether to emit the deprecation warning; 0 is stored like any other value",
+    ("passlib.totp", "TOTP._adapt_uri_params", "period"): "URI parameter arrives as text ('0' is truthy) and is validated afterwards",
+    ("passlib.totp", "TOTP._adapt_uri_params", "digits"): "URI parameter arrives as text ('0' is truthy) and is validated afterwards",
+    ("libpass.hashers.pbkdf2", "PBKDF2SHAHandler.__init__", "rounds"): "0 rounds is not a valid PBKDF2 cost; falling back to the default is the documented behaviour",
+    ("libpass.hashers.pbkdf2", "PBKDF2SHAHandler.hash", "rounds"): "same as the constructor",
+}
+
+
+def falsy_zero_lint(model, rep, R, unit_filter, func_filter=None, witness=None):
+    """A parameter that defaults to None (meaning 'not given') and carries a number for which 0 is a legal value must be
+    tested with `is None`, not by truthiness (`if not p`, `if p`, `p or default`)."""
+    n = 0
+    for un, unit in model.units.items():
+        if not unit_filter(un):
+            continue
+        for q, fn in unit.functions():
+            if func_filter and not func_filter(un, q):
+                continue
+            a = fn.args
+            names = [x.arg for x in a.args]
+            nonep = set()
+            for i, d in enumerate(a.defaults):
+                if isinstance(d, ast.Constant) and d.value is None:
+                    nonep.add(names[len(names) - len(a.defaults) + i])
+            for x, d in zip(a.kwonlyargs, a.kw_defaults):
+                if isinstance(d, ast.Constant) and d.value is None:
+                    nonep.add(x.arg)
+            nonep &= NUMERIC_OPTION_NAMES
+            if not nonep:
+                continue
+            for p in sorted(nonep):
+                bad = []
+                first_rebind = None
+                for node in walk_no_nested(fn):
+                    if isinstance(node, ast.Assign) and any(isinstance(t, ast.Name) and t.id == p for t in node.targets):
+                        first_rebind = min(first_rebind or node.lineno, node.lineno)
+                for node in walk_no_nested(fn):
+                    t = None
+                    if isinstance(node, (ast.If, ast.IfExp, ast.While)):
+                        tt = node.test
+                        if isinstance(tt, ast.Name) and tt.id == p:
+                            t = f"if {p}:"
+                        if isinstance(tt, ast.UnaryOp) and isinstance(tt.op, ast.Not) and isinstance(tt.operand, ast.Name) and tt.operand.id == p:
+                            t = f"if not {p}:"
+                    if isinstance(node, ast.BoolOp) and isinstance(node.op, ast.Or) and isinstance(node.values[0], ast.Name) and node.values[0].id == p:
+                        t = f"{p} or ..."
+                    if t and (first_rebind is None or node.lineno <= first_rebind):
+                        bad.append(t)
+                n += 1
+                s = f"{un}:{q}"
+                if (un, q, p) in FALSY_ZERO_TRIAGED:
+                    rep.hold(R, s, f"`{p}`: triaged -- {FALSY_ZERO_TRIAGED[(un, q, p)]}")
+                    continue
+                rep.check(not bad, R, s, f"{p}: {', '.join(bad)}" if bad else f"{p}: presence tested with `is None`",
+                          f"parameter `{p}` (None = not given) is tested by truthiness, so the legal value 0 is treated as 'not given'",
+                          witness=witness or f"{q}({p}=0) silently behaves as if {p} had not been passed")
+    return n
